@@ -323,6 +323,27 @@ structure PlainEnds (X : Bytes) : Prop where
   first : ∀ c r, X = c :: r → c < 0x80 ∧ isAsciiSpace c = false ∧ c ≠ 0x22
   last : ∀ i c, X = i ++ [c] → c < 0x80 ∧ isAsciiSpace c = false
 
+/-- **Write / read round trip of a whole slice of strings.**  A `[]string` option is written as
+    one line per element (each quoted when it needs it); for EVERY list of byte strings, of any
+    length, reading those lines back — in order, from any line number on — adds exactly one entry
+    per element, under the option's key, with the element's bytes, in the order written (which
+    the reader then appends one by one: `C01.slice_appends`). -/
+theorem string_slice_round_trip (E : Env) (hE : E.spacesNotPrintable) (file : Bytes) (cur name : Bytes)
+    (force : Bool) (hk : IniKeyOK name) (vs : List Bytes) (hb : ∀ v ∈ vs, ∀ b ∈ v, b < 256) :
+    ∀ (f : IniFile) (n : Nat), ∃ es : List IniVal,
+      es.map (fun e => (e.name, e.value)) = vs.map (fun v => (name, v)) ∧
+      readIniLines file (vs.map fun v => (writeOption E name true [] v false force).dropLast) n (f, cur) =
+        .ok (es.foldl (fun f e => iniAddEntry f cur e) f) := by
+  induction vs with
+  | nil => intro f n; exact ⟨[], rfl, rfl⟩
+  | cons v vs ih =>
+    intro f n
+    obtain ⟨q, hq⟩ := string_value_round_trip E hE file f cur name v (n + 1) force hk (hb v (by simp))
+    obtain ⟨es, hes, hr⟩ := ih (fun v' hv' => hb v' (by simp [hv'])) (iniAddEntry f cur ⟨name, v, q, n + 1⟩) (n + 1)
+    refine ⟨⟨name, v, q, n + 1⟩ :: es, by simp [hes], ?_⟩
+    simp only [List.map_cons, readIniLines, hq, List.foldl_cons]
+    exact hr
+
 /-- **A value written verbatim reads back verbatim**: the line `key = X`, for any X with plain
     ends, is read as the entry (key, X), unquoted. -/
 theorem plain_value_line_reads_back (file : Bytes) (f : IniFile) (cur name X : Bytes) (n : Nat)
